@@ -44,12 +44,65 @@ def check_runs(chk, runs, cases):
     return bad
 
 
+def scripted_stage(chk, tier, seed):
+    """the REAL parallel solver (NewSkeletonParallelSolver.Solve: dispatcher, budget grab, Iterated handler, closing)
+    with scripted factories vs Model/SolverLoop.v pstep/prun on the canonical sequential schedule: iterations granted
+    to each started solver, iterations counted at End and in run.Data, solutions delivered, channel closed"""
+    import os
+    import random
+    import common as C
+    rng = random.Random(seed * 131 + 15)
+    n = 400 if tier == "quick" else 10000
+    blocks = []
+    for i in range(n):
+        runs = rng.choice([1, 1, 2, 3, 4, 8])
+        its = rng.choice([1, 2, 5, 17, 70, 300, rng.randint(1, 400)])
+        # the multiset of grants does not depend on the schedule when runs are sequential or all allotments are equal
+        allot = [rng.randint(1, 60) for _ in range(rng.randint(1, 4))] if runs == 1 else [rng.choice([1, 3, 20, rng.randint(1, 60)])]
+        blocks.append((str(i), ["popts %d %d %d" % (its, runs, rng.randint(0, 1)), "allot " + " ".join(map(str, allot))]))
+    cf = os.path.join(C.BUILD, "c15_ploop_%s.case" % tier)
+    C.write_cases(cf, blocks)
+    (rc1, go_out, go_err), (rc2, ml_out, ml_err) = C.run_both("ploop", cf, timeout=3000)
+    chk.ob("scripted parallel solver: harness and model runner exit normally", rc1 == 0 and rc2 == 0, (go_err + ml_err)[-300:])
+    g, m = C.group_lines(go_out), C.group_lines(ml_out)
+    bad = []
+    nviol = 0
+    for cid, lines in blocks:
+        gl, ml = g.get(cid, []), m.get(cid, [])
+        if gl != ml and len(bad) < 5:
+            bad.append({"case": lines, "impl": gl, "model": ml})
+        its = int(lines[0].split()[1])
+        d = {l.split()[0]: l.split()[1:] for l in gl}
+        fails = []
+        if "total" not in d:
+            fails.append("no outcome: %s" % gl[:2])
+        else:
+            total, rep = int(d["total"][0]), int(d["reported"][0])
+            if total > its:
+                fails.append("performed %d iterations, budget %d" % (total, its))
+            if rep != total:
+                fails.append("reported %d iterations, performed %d" % (rep, total))
+            if sum(int(x) for x in d.get("grants", [])) > its:
+                fails.append("solvers were handed %s iterations in total, budget %d" % (d.get("grants"), its))
+        if fails:
+            nviol += 1
+            chk.violation({"kind": "input", "what": fails[0], "failures": fails, "case": lines,
+                           "how_to_replay": "nrharness ploop <file with: case x / these lines / end>"})
+    chk.ob("scripted parallel solver = SolverLoop.prun (budget grants, iteration count, closing) on %d option sets" % n, not bad,
+           str(bad[0])[:600] if bad else "")
+    if bad and chk.mismatch is None:
+        chk.mismatch = bad[0]
+    chk.ob("scripted parallel solver: budget respected and reported = performed on the implementation", nviol == 0)
+    chk.ev.cov["scripted_parallel_runs"] = n
+
+
 def run(tier, seed, replay=None):
     chk = FW.Check(PID, tier, seed)
-    if not chk.builds(model=False, harness=True, skeletons=True):
+    if not chk.builds(model=True, harness=True, skeletons=True):
         return chk.finish()
     chk.proofs()
     chk.oblig("O_C15")
+    scripted_stage(chk, tier, seed)
     n = 60 if tier == "quick" else 800
     cases = S.make_solve_cases(seed * 31 + 15, n, settings)
     runs, rc, err = S.run_solve(cases, "c15_" + tier, timeout=3000)
